@@ -2,6 +2,7 @@ package props
 
 import (
 	"fmt"
+	"math"
 	"reflect"
 	"sort"
 	"strings"
@@ -59,6 +60,9 @@ type c17inst struct {
 	generic func() []float64
 	dts     []ref.DT
 }
+
+// c17Tol: relative tolerance per family (0 = exact); transcendental kernels need only agree to float32 precision
+var c17Tol = map[string]float64{"unary-math": 2e-6}
 
 func c17Build(d ref.DT, ks []int, lay string) *tensor.Dense {
 	b, err := atlas.Build(d, []int{2, 3}, c17Vals(d, ks), lay)
@@ -669,7 +673,7 @@ func c17Instances() []c17inst {
 }
 
 func runC17(r *core.Run) {
-	insts := c17Instances()
+	insts := append(c17Instances(), c17More()...)
 	r.SetBound("instances", fmt.Sprintf("%d (family, operation, variant) instances x up to 18 element types", len(insts)))
 	fam := map[string]int{}
 	for _, in := range insts {
@@ -741,7 +745,7 @@ func runC17(r *core.Run) {
 							continue
 						}
 					}
-					if !ok || f != want[i] {
+					if !ok || (f != want[i] && !(c17Tol[in.family] > 0 && math.Abs(f-want[i]) <= c17Tol[in.family]*math.Max(1, math.Abs(want[i])))) {
 						bad = true
 						fails = append(fails, fmt.Sprintf("%s: element %d is %s, the type-generic definition gives %v (all: %s vs %v)", d.Name, i, ref.Fmt(res[i]), want[i], ref.FmtEls(res), want))
 						break
